@@ -374,7 +374,12 @@ def plan_C15(c):
     c.mc('MC_Refine', cfg='MC_Refine_tight')      # non-vacuity of the oracle: neighbouring coefficients and wrong failure signals are rejected
     uops = ['floor', 'ceil', 'trunc', 'fract', 'abs', 'nt_abs', 'neg', 'neg_ref', 'signum']
     oops = ['magnitude', 'eq_zero', 'eq_one', 'is_negative', 'is_positive', 'is_zero', 'is_one', 'nt_is_negative', 'nt_is_positive']
-    g_operands(c, lambda x, i: [{'ev': 'un', 't': 1, 'op': op, 'x': x, 'n': 0} for op in uops] + [{'ev': 'obs', 't': 1, 'op': op, 'x': x} for op in oops])
+    # every single point (powers of two / ten / five with neighbours, scaling bounds) x every scale; three unary and three
+    # observation operations per operand, rotating so that every operation meets every point in some scale
+    g_operands(c, lambda x, i: [{'ev': 'un', 't': 1, 'op': uops[(i + j) % len(uops)], 'x': x, 'n': 0} for j in range(3)]
+               + [{'ev': 'obs', 't': 1, 'op': oops[(i + j) % len(oops)], 'x': x} for j in range(3)]
+               + ([{'ev': 'un', 't': 1, 'op': 'ceil', 'x': x, 'n': 0}, {'ev': 'un', 't': 1, 'op': 'floor', 'x': x, 'n': 0},
+                   {'ev': 'obs', 't': 1, 'op': 'eq_one', 'x': x}, {'ev': 'obs', 't': 1, 'op': 'magnitude', 'x': x}] if i % 2 == 0 else []))
     # the constants the predicates are stated against
     consts = [{'ev': 'const', 't': 1, 'name': n} for n in ['ZERO', 'ONE', 'NEG_ONE', 'TWO', 'TEN', 'MAX', 'MIN', 'DELTA', 'default', 'nt_zero', 'nt_one', 'MAX_N_FRAC_DIGITS']]
     consts += [{'ev': 'intratio', 't': 1, 'ty': t, 'v': jnum(int_class(t, k))} for t in INT_TYPES9 for k in (1, 2, 3, 6, 7)]
